@@ -189,8 +189,10 @@ def obsStr (o : Obs) : String :=
   let pns := o.pns.map fun p =>
     s!"b{p.pn}:c={joinOr (p.claims.map fun c => s!"b{c}")}:t={timeStr p.modtime}:y={timeStr p.anytime}:a={optVal p.tag},{optVal p.title},{optVal p.content}"
   let refs := fun (l : List Ref) => joinOr (l.map fun r => s!"b{r}")
+  let backs := o.backs.filterMap fun p =>
+    if p.2.isEmpty then none else some (s!"b{p.1}:" ++ "+".intercalate (sortStrings (p.2.map fun c => s!"b{c}")))
   (if o.bad then "BAD;" else "") ++
-  s!"M={joinOr metas};D={joinOr dels};P={joinOr pns "/"};L={refs o.byMod};C={refs o.byCreated}"
+  s!"M={joinOr metas};D={joinOr dels};P={joinOr pns "/"};L={refs o.byMod};C={refs o.byCreated};B={joinOr backs}"
 
 /-! the machine -/
 
